@@ -221,17 +221,19 @@ def limiter_grid(session_mod, depth=3, inits=(1, 2), targets=(0, 1, 2, 3), probe
     return rows
 
 
-def encode_ints(xs):
-    """a list of small integers (-2..60) as ONE natural number: base-64 digits (value + 2), least
-    significant first, with a final digit 1 as terminator.  Lean elaborates a few hundred big
-    numerals instantly (a list of thousands of small numerals takes tens of seconds, and strings
-    do not reduce in the kernel) and decodes them with GMP-backed `%` and `/`."""
-    n = 1
-    for x in reversed(xs):
-        if not -2 <= x <= 60:
-            raise ValueError(f'value {x} does not fit the base-64 encoding')
-        n = n * 64 + (x + 2)
-    return n
+def lean_int_rows(rows):
+    """rows of integers as a Lean term of type `List (List Int)`: `int_rows% "1 -2 3;4 5"`
+    (lean/Aiorpcx/C13/IntRows.lean builds the term from raw literals at elaboration time -
+    elaborating thousands of ordinary numerals would take tens of seconds per facts file)"""
+    body = ';'.join(' '.join(str(int(x)) for x in r) for r in rows)
+    return f'int_rows% "{body}"'
+
+
+def rat_ints(x):
+    """a float / int / Fraction as exact (numerator, denominator)"""
+    from fractions import Fraction
+    f = Fraction(x)
+    return [f.numerator, f.denominator]
 
 
 def flat_limiter_row(row):
@@ -254,12 +256,8 @@ def flat_limiter_row(row):
     return out
 
 
-def lean_nat_list(ns):
-    return '[\n  ' + ',\n  '.join(str(n) for n in ns) + ']'
-
-
 def lean_limiter_rows(rows):
-    return lean_nat_list([encode_ints(flat_limiter_row(r)) for r in rows])
+    return lean_int_rows([flat_limiter_row(r) for r in rows])
 
 
 # ------------------------------------------------------------------ sessions with gated handlers
@@ -306,3 +304,60 @@ def rpc_bytes(i, request=True):
 def msg_bytes(mods, i):
     framer = mods['framing'].BitcoinFramer()
     return framer.frame((b'probe', str(i).encode()))
+
+
+# ------------------------------------------------------------------ virtual time
+class VBench(Bench):
+    """a Bench on the virtual-time loop of harness/vloop.py: `advance(dt)` fires every timer due
+    within dt (sleep / timeout_after of the code under test), `aiorpcx.session.time` can be bound
+    to the loop's clock with `bind_clock`"""
+
+    def __init__(self):
+        from harness import vloop
+        logging.disable(logging.CRITICAL)
+        self.loop = vloop.VLoop()
+        asyncio.set_event_loop(self.loop)
+
+    def _due(self):
+        loop = self.loop
+        if loop._ready:
+            return True
+        for h in loop._scheduled[:1]:
+            if not h._cancelled and h._when <= loop.time():
+                return True
+        return False
+
+    def idle(self, rounds=100000):
+        loop = self.loop
+        loop._spin = 0
+        for _ in range(rounds):
+            if not self._due():
+                if not loop._scheduled or not loop._scheduled[0]._cancelled:
+                    return
+            loop.call_soon(loop.stop)
+            loop.run_forever()
+        raise RuntimeError('probe loop does not become idle')
+
+    def advance(self, dt):
+        self.idle()
+        if dt > 0:
+            self.loop.call_later(dt, self.loop.stop)
+            self.loop.run_forever()
+        self.idle()
+
+
+class LoopClock:
+    """`time` stand-in that reads the virtual loop's clock"""
+
+    def __init__(self, loop):
+        self.loop = loop
+
+    def time(self):
+        return self.loop.time()
+
+
+class StubTransport:
+    """all a bare `SessionBase` needs from its transport"""
+
+    def __init__(self, kind):
+        self.kind = kind
